@@ -126,6 +126,7 @@ func runC09(e *env) {
 		specs = append(specs, &tw)
 	}
 	obs := observeAll(specs, "ts,dart,sql", 14)
+	defer e.writeAnaCross("C09", specs, obs)
 	var cases []string
 	var inputs []interface{}
 	fileNo := 0
